@@ -62,3 +62,40 @@ def extra_args(ctx, spec, args, bs_bits=32, data=None):
 def build(spec, opcode, args, extra):
     cls = get_class(spec)
     return cls(opcode, **dict(args, **extra))
+
+
+def concrete_args(spec):
+    """a simple valid concrete constructor call (used where only the class state matters)"""
+    a = {}
+    for name, segs in spec["fields"].items():
+        a[name] = 0
+    if "t_length" in a:
+        a.update(t_length=2, t_dir=1, count=1)
+    e = {}
+    for k, kind in spec["extra"].items():
+        if kind in ("blocksize", "blocksize-kw"):
+            e[k] = 512
+        elif kind == "data":
+            e[k] = bytearray(512)
+        elif kind == "modepage":
+            e[k] = {"medium_type": 0, "device_specific_parameter": 0,
+                    "mode_pages": [{"ps": 0, "spf": 0, "page_code": 0x0A, "tst": 0, "swp": 1}]}
+    return a, e
+
+
+def lib_bits(mask, off):
+    """set of (byte, bit) positions a library [mask, offset] entry occupies"""
+    n = 1
+    m = mask
+    while m > 0xFF:
+        m >>= 8
+        n += 1
+    out = set()
+    for b in range(8 * n):
+        if (mask >> b) & 1:
+            out.add((off + n - 1 - b // 8, b % 8))
+    return out
+
+
+def spec_bits(segs):
+    return {(byte, b) for byte, msb, lsb, _ in segs for b in range(lsb, msb + 1)}
